@@ -55,6 +55,10 @@ pub struct Sched {
     /// thread kinds, panicking plans: never release the gates of the higher-index siblings of the panicking branch;
     /// the panic has to reach the caller while they are held
     pub hold_after_panic: bool,
+    /// task kinds: where the macro's future is *created* — 0: inside the first poll on the polling runtime; 1: in plain
+    /// synchronous code, outside every runtime context; 2: inside the context of another runtime that is never driven.
+    /// It is always polled on the harness runtime: a lazy future binds to the context it is polled in
+    pub create_ctx: u8,
 }
 
 pub struct RunRec {
@@ -486,6 +490,7 @@ pub fn run_threads(case: &Case, exp: &Exp, plan: &Plan, sched: &Sched, step_of: 
             std::thread::sleep(Duration::from_micros(sched.grace_us));
             if let Some(e) = later_step_event(step_of, k) {
                 notes.push(Note { prop: "C03", msg: format!("event {:?}({}) of step {:?} logged while gate(s) {:?} of step {} are held", e.k, e.id, step_of(e.id), pending, k) });
+                notes.push(Note { prop: "C08", msg: format!("the caller went on to step {:?} (event {:?}({})) while branch thread(s) of step {} are still held at gate(s) {:?}", step_of(e.id), e.k, e.id, k, pending) });
             }
             if log::any(|e| e.k == K::Post && !e.stale) {
                 notes.push(Note { prop: "C08", msg: format!("the caller continued (Post) while gate(s) {:?} of step {} are held", pending, k) });
@@ -766,8 +771,43 @@ pub fn run_async_tasks(case: &Case, exp: &Exp, plan: &Plan, sched: &Sched) -> Ru
     let mut d = Decider { exp, tracker: GateTracker::new_for(case.prog, exp, plan, case.kind.is_tasks()), released: HashSet::new(), sched, notes: vec![], decisions: 0, max_held: 0, is_try: case.kind.is_try() };
     let mut polls = 0usize;
     let rt = tokio::runtime::Builder::new_current_thread().enable_time().build().expect("tokio rt");
+    let mut other_rt: Option<tokio::runtime::Runtime> = None;
+    let mut pre: Option<LocalFut> = None;
+    if sched.create_ctx != 0 && !sched.drop_unpolled {
+        let made = catch_unwind(AssertUnwindSafe(|| {
+            if sched.create_ctx == 2 {
+                let o = tokio::runtime::Builder::new_current_thread().enable_time().build().expect("tokio rt");
+                let f = {
+                    let _g = o.enter();
+                    mk()
+                };
+                other_rt = Some(o);
+                f
+            } else {
+                mk()
+            }
+        }));
+        match made {
+            Ok(f) => {
+                if log::len() != 0 {
+                    d.notes.push(Note { prop: "C09", msg: format!("{} event(s) logged before the future was first polled", log::len()) });
+                }
+                pre = Some(Box::pin(log::ROOT.scope(1, f)));
+            }
+            Err(e) => {
+                let m = panic_msg(e);
+                d.notes.push(Note { prop: "C09", msg: format!("creating the macro's future {} panicked, although nothing may be evaluated before the first poll: {}", if sched.create_ctx == 2 { "inside the context of another runtime" } else { "in synchronous code outside every runtime context" }, m) });
+                gate::open_all();
+                drop(rt);
+                drop(other_rt);
+                let quiesced = crate::tok::live() == 0;
+                let (l, st) = split_log();
+                return RunRec { outcome: Outcome::Panicked(m), log: l, stale: st, notes: d.notes, caller_thr, polls, decisions: 0, max_held: 0, quiesced, held_at_result: 0 };
+            }
+        }
+    }
     let r = catch_unwind(AssertUnwindSafe(|| {
-        let drv = TaskDriver { mk, fut: None, d: &mut d, wk: Arc::new(CountWaker(AtomicUsize::new(0))), seen: 0, first: true, idle: 0, last_progress: 0, polls: &mut polls, rounds: 0, awaiting_wake: None };
+        let drv = TaskDriver { mk, fut: pre, d: &mut d, wk: Arc::new(CountWaker(AtomicUsize::new(0))), seen: 0, first: true, idle: 0, last_progress: 0, polls: &mut polls, rounds: 0, awaiting_wake: None };
         rt.block_on(drv)
     }));
     let outcome = match r {
@@ -777,6 +817,7 @@ pub fn run_async_tasks(case: &Case, exp: &Exp, plan: &Plan, sched: &Sched) -> Ru
     gate::open_all();
     // dropping the runtime drops (cancels) every task that is still around
     drop(rt);
+    drop(other_rt);
     let quiesced = crate::tok::live() == 0;
     let (l, st) = split_log();
     RunRec { outcome, log: l, stale: st, notes: d.notes, caller_thr, polls, decisions: d.decisions, max_held: d.max_held, quiesced, held_at_result: 0 }
